@@ -30,6 +30,8 @@ Outcomes == {"pass", "fail", "timeout", "skip", "timeout_term", "timeout_closed"
 \* env = "shadow": a test case unsets the documented variables and assigns plain (not exported) shell variables of those names
 \* env = "symlink": the document is a symbolic link into another directory (TESTDIR / TESTFILE are those of the link)
 \* env = "relpath": the document is named relative to a current directory below it (`../doc.md`)
+\* env = "barename": scrut is started in the directory of the (first) document, which is named by its bare file name
+\*                   (`doc.md`, no directory part at all); TESTDIR is still the absolute path of that directory
 \* env = "compat": --cram-compat (one script per document; the documented variables except SCRUT_TEST hold there too, also
 \*                 when the caller's environment sets CDPATH / GREP_OPTIONS / LANG ... to something else)
 \* env = "shells": every document names its own shell in its front-matter; TESTSHELL (and the shell that runs) is per document
@@ -42,7 +44,7 @@ Dir(p, i, role) == <<p, i, role>>
 UserDir(p) == <<p, 0, "W">>
 
 ProcScen == IF Full
-            THEN [mode : Modes, docs : UNION {[1..n -> Outcomes] : n \in 1..2}, samename : BOOLEAN, env : {"plain", "unset", "overwrite", "shadow", "shared", "compat", "shells", "symlink", "relpath"}]
+            THEN [mode : Modes, docs : UNION {[1..n -> Outcomes] : n \in 1..2}, samename : BOOLEAN, env : {"plain", "unset", "overwrite", "shadow", "shared", "compat", "shells", "symlink", "relpath", "barename"}]
             ELSE [mode : Modes, docs : {<<"pass">>, <<"pass", "fail">>}, samename : {TRUE}, env : {"plain"}]
 Init == /\ sc \in [Procs -> ProcScen]
         /\ fs = {UserDir(p) : p \in {q \in Procs : sc[q].mode = "workdir"}}
